@@ -5,6 +5,7 @@ From Coq Require Import ZArith List.
 From Verif Require Import Lib.Params Lib.Octets Lib.Decimal Model.Outcome.
 From Verif Require Model.FfLimbs Model.FfConv Model.FfgLimbs Model.FfgConv.
 From Verif Require Proofs.FfCodec Proofs.FfgCodec Proofs.FfgMont Proofs.DecimalProofs.
+From Verif Require Lib.Words Lib.GoGlue Gen.FfGlue Gen.FfgGlue Proofs.FfGlueEq Proofs.FfgGlueEq Model.FfLimbs Model.FfgLimbs Model.FfConv Model.FfgConv.
 Local Open Scope Z_scope.
 
 Module BN254.
@@ -74,6 +75,40 @@ End Goldilocks.
 Theorem C11_decimal_roundtrip : forall v, parse_dec (dec_of_Z v) = Some v.
 Proof. exact DecimalProofs.parse_dec_dec_of_Z. Qed.
 
+(* ---- the element-level GLUE of the Go source (loops, calls, math/big conversions): tools/limbgen
+   re-translates these functions at every run (Gen/FfGlue.v, Gen/FfgGlue.v: a Go loop becomes a
+   fixpoint on its iteration count or on explicit fuel); each equals the model used above ---- *)
+Theorem C11_glue_is_the_source_ff :
+  (forall v, FfGlue.Element_SetBigInt v = FfConv.setBigInt v) /\
+  (forall e, FfGlue.Element_SetBytes e = FfConv.setBytes e) /\
+  (forall z, FfLimbs.canon z -> FfGlue.Element_ToBigIntRegular z = FfConv.toBigIntRegular z) /\
+  (forall z, FfGlue.Element_Bytes z = FfConv.bytesOf z) /\
+  (forall z, FfGlue.Element_Marshal z = FfConv.bytesOf z) /\
+  (forall z x, FfGlue.Element_Cmp z x = FfConv.cmp z x) /\
+  (forall z, FfGlue.Element_LexicographicallyLargest z = FfConv.lexLargest z) /\
+  (forall v, FfGlue.NewElementFromUint64 v = FfLimbs.setUint64 v) /\
+  (forall z, FfGlue.Element_BitLen z = FfConv.bitLen z).
+Proof.
+  exact (conj FfGlueEq.gen_SetBigInt_eq (conj FfGlueEq.gen_SetBytes_eq (conj FfGlueEq.gen_ToBigIntRegular_eq
+        (conj FfGlueEq.gen_Bytes_eq (conj FfGlueEq.gen_Marshal_eq (conj FfGlueEq.gen_Cmp_eq
+        (conj FfGlueEq.gen_LexicographicallyLargest_eq (conj FfGlueEq.gen_NewElementFromUint64_eq FfGlueEq.gen_BitLen_eq)))))))).
+Qed.
+
+Theorem C11_glue_is_the_source_ffg :
+  (forall v, FfgGlue.Element_SetBigInt v = FfgLimbs.setBigInt v) /\
+  (forall e, FfgGlue.Element_SetBytes e = FfgConv.setBytes e) /\
+  (forall z, Words.u64 z -> FfgGlue.Element_ToBigIntRegular z = FfgLimbs.toBigIntRegular z) /\
+  (forall z, FfgGlue.Element_ToUint64Regular z = FfgLimbs.toUint64Regular z) /\
+  (forall z, FfgGlue.Element_Bytes z = FfgConv.bytesOf z) /\
+  (forall z, FfgGlue.Element_Marshal z = FfgConv.bytesOf z) /\
+  (forall z x, FfgGlue.Element_Cmp z x = FfgConv.cmp z x) /\
+  (forall z, FfgGlue.Element_LexicographicallyLargest z = FfgConv.lexLargest z).
+Proof.
+  exact (conj FfgGlueEq.gen_SetBigInt_eq (conj FfgGlueEq.gen_SetBytes_eq (conj FfgGlueEq.gen_ToBigIntRegular_eq
+        (conj FfgGlueEq.gen_ToUint64Regular_eq (conj FfgGlueEq.gen_Bytes_eq (conj FfgGlueEq.gen_Marshal_eq
+        (conj FfgGlueEq.gen_Cmp_eq FfgGlueEq.gen_LexicographicallyLargest_eq))))))).
+Qed.
+
 Print Assumptions BN254.C11_setBigInt.
 Print Assumptions BN254.C11_string.
 Print Assumptions BN254.C11_roundtrips.
@@ -82,3 +117,5 @@ Print Assumptions Goldilocks.C11_setBigInt.
 Print Assumptions Goldilocks.C11_roundtrips.
 Print Assumptions Goldilocks.C11_lexLargest.
 Print Assumptions C11_decimal_roundtrip.
+Print Assumptions C11_glue_is_the_source_ff.
+Print Assumptions C11_glue_is_the_source_ffg.
